@@ -337,7 +337,8 @@ struct WorkerDone {
     faults_configured: BTreeMap<String, u64>,
     faults_fired: BTreeMap<String, u64>,
     probes: BTreeMap<String, u64>,
-    sim_time_ns: u128,
+    /// microseconds (serde_json cannot carry integers above u64::MAX; nanoseconds of a long batch can exceed that)
+    sim_time_us: u128,
     nontrivial_sigs: Vec<u64>,
     scheds: Vec<u64>,
     digest: Vec<(u64, u64)>,
@@ -432,7 +433,7 @@ pub fn worker<C: Check>(a: WorkerArgs) {
         faults_configured: tostr(&ctx.faults_configured),
         faults_fired: tostr(&ctx.faults_fired),
         probes: tostr(&ctx.probes),
-        sim_time_ns: ctx.sim_time_ns,
+        sim_time_us: std::cmp::min(ctx.sim_time_ns / 1000, u64::MAX as u128),
         nontrivial_sigs: sigs.into_iter().collect(),
         scheds: scheds.into_iter().collect(),
         digest,
@@ -595,7 +596,7 @@ pub fn drive<C: Check>(o: DriveOpts) -> i32 {
             for (k, v) in d.probes {
                 *agg.probes.entry(k).or_insert(0) += v;
             }
-            agg.sim_time_ns += d.sim_time_ns;
+            agg.sim_time_us += d.sim_time_us;
             agg.nontrivial_sigs.extend(d.nontrivial_sigs);
             agg.scheds.extend(d.scheds);
             digest_all.extend(d.digest);
@@ -836,7 +837,7 @@ pub fn drive<C: Check>(o: DriveOpts) -> i32 {
                 "rule": C::rule(),
                 "samples": samples,
                 "runs_per_hour": if wall > 0.0 { (agg.runs as f64 / wall * 3600.0) as u64 } else { 0 },
-                "simulated_time_s": agg.sim_time_ns as f64 / 1e9,
+                "simulated_time_s": agg.sim_time_us as f64 / 1e6,
                 "fault_kinds": faults,
                 "reach_probes": agg.probes,
                 "reach_missing": reach_missing,
